@@ -21,11 +21,12 @@ fn removing_config(cfg: &Value) -> bool {
 
 fn build(id: String, cfg: &Value, input: &[u8], tl: &[Value], normal: &[u8], kind: &str, bail: &[Vec<u8>]) -> Value {
     let mut received = 0usize;
+    let mut ends: Vec<usize> = Vec::new();   // bytes received after each write
     let mut res = "ok".to_string();
     let mut p: i64 = -1; let mut q: i64 = -1; let mut failk = String::new();
     let mut nbo = 0usize; let mut boerr = Vec::new();
     for e in tl {
-        if e["e"] == "call" && e["op"] == "write" && e.get("poke").is_none() && res == "ok" { received += e["b"].as_array().unwrap().len(); }
+        if e["e"] == "call" && e["op"] == "write" && e.get("poke").is_none() && res == "ok" { received += e["b"].as_array().unwrap().len(); ends.push(received); }
         if e["e"] == "ret" && e["res"] != "ok" && res == "ok" { res = e["res"].as_str().unwrap().to_string(); }
         if e["e"] == "ev" {
             if e["k"] == "bo" { nbo += 1; boerr.push(e["err"].clone()); continue; }
@@ -36,7 +37,7 @@ fn build(id: String, cfg: &Value, input: &[u8], tl: &[Value], normal: &[u8], kin
             }
         }
     }
-    json!({"id": id, "input": input, "received": received, "kind": kind, "failk": failk, "p": p, "q": q,
+    json!({"id": id, "input": input, "received": received, "ends": ends, "kind": kind, "failk": failk, "p": p, "q": q,
         "removing": removing_config(cfg), "passthru": !has_ops(cfg),
         "gmem": cfg.get("mem").and_then(|m| m.get("graceful")).and_then(|x| x.as_bool()).unwrap_or(false),
         "ghandler": cfg.get("gh").and_then(|x| x.as_bool()).unwrap_or(false),
@@ -70,7 +71,7 @@ pub fn job_c11(out_dir: &str, tier: &str, seed: u64) {
     for (ii, (input, enc, allcuts)) in cases.iter().enumerate() {
         let input = input;
         for si in 0..(if *allcuts { 4 } else { 2 }) {
-            let (_, hs) = &sets[if *allcuts { [0usize, 1, 2, 6][si] % sets.len() } else { (ii * 5 + si * 11) % sets.len() }];
+            let (_, hs) = &sets[if *allcuts { [0usize, 1, 2, 6][si] % sets.len() } else { (ii + si * 11) % sets.len() }];
             let base = gen::merge(hs, &json!({"strict": false, "enc": enc}));
             let cutsets = if *allcuts { let mut c: Vec<Vec<usize>> = vec![vec![]]; for k in 1..input.len() { c.push(vec![k]); } c } else { gen::light_cut_sets(input.len(), &mut rng, 1) };
             for cuts in &cutsets {
